@@ -1,6 +1,7 @@
 (* Property C14 — diff output is reference minus source on matching entities. *)
 From Coq Require Import QArith Arith Bool List.
-From FC Require Import Model.Compare Model.Diff Proofs.CompareP Proofs.DiffP.
+From Coq Require Import ZArith.
+From FC Require Import Model.Scalar Model.Compare Model.Diff Proofs.CompareP Proofs.DiffP Proofs.DiffIntP.
 Import ListNotations.
 Local Open Scope nat_scope.
 
@@ -31,6 +32,24 @@ Theorem C14_diff_zero_if_equal : forall v : list Q,
   Forall (fun d => match d with Some x => (x == 0)%Q | None => False end) (sub_padded (length v) v v).
 Proof. exact diff_zero_if_equal. Qed.
 Print Assumptions C14_diff_zero_if_equal.
+
+(* integer fields (finding F-C14a): computed as repaired — narrow integers widened to 64 bits — the difference of any two
+   values of a type of at most 32 bits is exactly reference minus source; in the fields' own type it is not *)
+Theorem C14_integer_difference_exact : forall w sgn a b,
+  (0 < w <= 32)%Z -> in_int_range w sgn a -> in_int_range w sgn b -> int_diff_fixed a b = (a - b)%Z.
+Proof. exact int_diff_fixed_exact_narrow. Qed.
+Print Assumptions C14_integer_difference_exact.
+
+Theorem C14_integer_difference_int64 : forall a b,
+  (- 2 ^ 63 <= a - b < 2 ^ 63)%Z -> int_diff_fixed a b = (a - b)%Z.
+Proof. exact int_diff_fixed_exact_int64. Qed.
+Print Assumptions C14_integer_difference_int64.
+
+Theorem C14_integer_difference_pinned_refuted :
+  in_int_range 8 false 51 /\ in_int_range 8 false 200 /\ int_diff_pinned 8 false 51 200 = 107%Z /\ int_diff_fixed 51 200 = (-149)%Z /\
+  in_int_range 8 true (-128) /\ in_int_range 8 true 5 /\ int_diff_pinned 8 true (-128) 5 = 123%Z /\ int_diff_fixed (-128) 5 = (-133)%Z.
+Proof. exact int_diff_pinned_refuted. Qed.
+Print Assumptions C14_integer_difference_pinned_refuted.
 
 Example C14_nonvacuous :
   diff_table 2 3 [(0, [1#1; 2#1]); (1, [5#1; 5#1])] [(0, [4#1; 4#1; 4#1]); (2, [0#1; 0#1; 0#1])]
